@@ -65,14 +65,16 @@ Proof.
     destruct t as [id sub|id|id al| |items].
     + destruct (IH _ _ _ H imp Hin) as [G|(t & Ht & Hn)]; [now left|right].
       destruct Ht as [<-|Ht]; [exists (UPath id sub); split; [now left|exact Hn]|exists t; split; [now right|exact Hn]].
-    + destruct bn as [b|]; [|discriminate]. iter_step H. injection H as <-.
+    + destruct bn as [b|]; [|destruct (IH _ _ _ H imp Hin) as [G|(t & Ht & Hn)]; [now left|right; exists t; split; [now right|exact Hn]]].
+      iter_step H. injection H as <-.
       assert (K : imp = {| base_crate := resolve_crate own b; type_name := id |} \/ In imp more).
       { destruct (accept_crate uc (resolve_crate own b) && accept_type uc id); [destruct Hin as [<-|Hin]; auto|auto]. }
       destruct K as [->|K].
       * right. exists (UName id). split; [now left|]. cbn. apply str_eqb_refl.
       * destruct (IH _ _ _ E imp K) as [G|(t & Ht & Hn)]; [now left|right]. exists t. split; [now right|exact Hn].
     + destruct (IH _ _ _ H imp Hin) as [G|(t & Ht & Hn)]; [now left|right]. exists t. split; [now right|exact Hn].
-    + destruct bn as [b|]; [|discriminate]. iter_step H. injection H as <-.
+    + destruct bn as [b|]; [|destruct (IH _ _ _ H imp Hin) as [G|(t & Ht & Hn)]; [now left|right; exists t; split; [now right|exact Hn]]].
+      iter_step H. injection H as <-.
       assert (K : imp = {| base_crate := resolve_crate own b; type_name := GLOB |} \/ In imp more).
       { destruct (accept_crate uc (resolve_crate own b)); [destruct Hin as [<-|Hin]; auto|auto]. }
       destruct K as [->|K]; [now left|].
